@@ -8,7 +8,7 @@ CONSTANTS MIds, MVoters, MLearners, PreVoteOn, CheckQuorumOn,
           AllowDrop, AllowDup, AllowAsync, AllowCrash, PrintReplay, Fine,
           EagerReady, QuiescentTicks, MaxLeaderTicks, TickNodes, MaxDrops,
           MaxTransfers, TransferTargets, MaxConf, ConfMenuIds, MaxReads, LazyApply, AllowCompact, ProposeAnywhere,
-          TargetPreds
+          MaxDups, TargetPreds, DropTypes, DropTo, DupTypes, CompactNodes
 
 K0 == [election_tick |-> 3, heartbeat_tick |-> 1, max_size_per_msg |-> NoLimit, max_inflight |-> 2,
        check_quorum |-> CheckQuorumOn, pre_vote |-> PreVoteOn, skip_bcast_commit |-> FALSE, batch_append |-> FALSE,
@@ -72,15 +72,19 @@ Next ==
                       \/ (Count("ProposeConf") < MaxConf /\ ~(EagerReady /\ SomeReady) /\ node[i].role = "L"
                             /\ \E k \in ConfMenuIds : ProposeConfA(i, ConfMenu[k].tr, ConfMenu[k].ch, CCSize(ConfMenu[k])))
                       \/ (Count("ReadIndex") < MaxReads /\ ~(EagerReady /\ SomeReady) /\ ReadIndexA(i, ReadCtx(Count("ReadIndex"))))
-                      \/ (AllowCompact /\ ~(EagerReady /\ SomeReady) /\ MakeSnapA(i))
-                      \/ (AllowCompact /\ ~(EagerReady /\ SomeReady) /\ CompactA(i, SnapPointOf(i)))
+                      \/ (AllowCompact /\ (CompactNodes = {} \/ i \in CompactNodes) /\ ~(EagerReady /\ SomeReady) /\ MakeSnapA(i))
+                      \/ (AllowCompact /\ (CompactNodes = {} \/ i \in CompactNodes) /\ ~(EagerReady /\ SomeReady) /\ CompactA(i, SnapPointOf(i)))
                       \/ (\E rp \in app[i].reports : ReportSnapA(i, rp[1], rp[2]))
                       \/ (AllowCrash /\ Count("Crash") < MaxCrashes /\ CrashA(i))
                       \/ RestartA(i)
     \/ \E m \in BagToSet(net) : ~(EagerReady /\ SomeReady) /\
                                 (\/ DeliverA(m, FALSE)
-                                \/ (AllowDup /\ CopiesIn(m, net) = 1 /\ Count("DeliverSpec") < MaxDepth /\ DeliverA(m, TRUE))
-                                \/ (AllowDrop /\ Count("DropSpec") < MaxDrops /\ DropA(m)))
+                                \/ (AllowDup /\ CopiesIn(m, net) = 1 /\ (DupTypes = {} \/ m.ty \in DupTypes)
+                                      /\ Cardinality({k \in DOMAIN h : h[k].ev = "DeliverSpec" /\ h[k].keep}) < MaxDups
+                                      /\ DeliverA(m, TRUE))
+                                \/ (AllowDrop /\ Count("DropSpec") < MaxDrops
+                                      /\ (DropTypes = {} \/ m.ty \in DropTypes) /\ (DropTo = {} \/ m.to \in DropTo)
+                                      /\ DropA(m)))
 
 Spec == Init /\ [][Next]_vars
 
